@@ -70,4 +70,4 @@ Example C10_example_hyps :
   find_closest [qz 1; qz 2; qz 4] [qz 0; qz 2; qz 2; qz 3; qz 9] = Ok [0; 1; 1; 1; 2] /\
   find_lower [qz 5] [qz 0; qz 5; qz 7] false = Ok [-1; 0; 0] /\
   find_higher [qz 5] [qz 0; qz 5; qz 7] false = Ok [0; 0; 1].
-Proof. vm_compute. repeat split; reflexivity || exact I. Qed.
+Proof. vm_compute. repeat split; first [reflexivity | exact I | discriminate]. Qed.
